@@ -29,20 +29,44 @@ def phase_panel(run, pool):
 
 
 def phase_paths(run, pool):
-    """C17: exhaustive sweep routine x operator kind x {explicit key, default key} with one reused algorithm object."""
+    """C17: exhaustive small sweeps (algorithm-object entry points, routine x kind matrix, key interactions, large-draw
+    programs), all invariants on, and the result of every call compared across ALL these histories."""
     t = time.time()
-    # the large-draw programs and the routine x kind matrix also run here, all invariants on
-    progs = P.path_programs_c17() + P.large_programs_c17() + P.matrix_programs_c17()
+    progs = P.path_programs_c17() + P.large_programs_c17() + P.matrix_programs_c17() + P.key_programs_c17()
     n0 = run.evals
-    pool.run(({"id": i, "kind": "program", "program": p["program"], "name": p["name"], "want_program": False,
-               "deadline": 240, "run_seed": ("large:" if p["program"]["config"].get("large") else
-                            "matrix:" if p["program"]["config"].get("matrix") else "path:") + p["name"]}
-              for i, p in enumerate(progs)), run.absorb)
+    table, conflicts = {}, []
+
+    def on(job, res):
+        run.absorb(job, res)
+        for key, dig in (res.get("call_results") or {}).items():
+            prev = table.get(key)
+            if prev is None:
+                table[key] = (dig, job["prog_index"])
+            elif prev[0] != dig and len(conflicts) < 4:
+                conflicts.append((key, prev[1], job["prog_index"]))
+
+    def tag(p):
+        c = p["program"]["config"]
+        return ("large:" if c.get("large") else "matrix:" if c.get("matrix") else "keys:" if c.get("keys") else "path:") + p["name"]
+
+    pool.run(({"id": i, "prog_index": i, "kind": "program", "program": dict(p["program"], want_results=True), "name": p["name"],
+               "want_program": False, "deadline": 240, "run_seed": tag(p)} for i, p in enumerate(progs)), on)
+    for key, ia, ib in conflicts[:2]:
+        pa, pb = dict(progs[ia]["program"], want_results=True), dict(progs[ib]["program"], want_results=True)
+        run.violations.append(({"kind": "program", "run_seed": "history:" + progs[ib]["name"], "id": -1},
+                               {"status": "violation", "program": None, "events_digest": None, "pair": [pa, pb],
+                                "violation": {"property": "C17", "invariant": "I-KEYED-HISTORY", "step": None, "detail": {
+                                    "what": "the same routine on the same operator with the same key returned different results in "
+                                            "two histories", "call": key, "history_a": progs[ia]["name"],
+                                    "history_b": progs[ib]["name"]}}}))
     run.phase_info["dispatch_path_sweep"] = {"programs": run.evals - n0, "algorithm_classes": len(P.PATH_CLASSES),
                                             "entry_points_accepting_the_object": len(P.PATH_ROUTINES),
                                             "operator_kinds": len(P.path_kinds()), "exhaustive": True,
                                             "routine_x_kind_matrix_programs": len(P.matrix_programs_c17()),
+                                            "key_interaction_programs": len(P.key_programs_c17()),
                                             "large_draw_programs": len(P.large_programs_c17()),
+                                            "calls_compared_across_histories": len(table),
+                                            "cross_history_conflicts": len(conflicts),
                                             "wall_s": round(time.time() - t, 1)}
 
 
@@ -112,7 +136,7 @@ def run_property(prop, tier, seed, workers=None, budget=None):
         mism = phase_xproc(run, B["xproc"], extra_programs=P.large_programs_c17() if prop == "C17" else ())
         for i, rs, d in mism[:2]:
             from .check import replay_dir
-            path = os.path.join(replay_dir(), "%s-xproc-%s.json" % (prop, str(rs).replace(":", "_")))
+            path = os.path.join(replay_dir(), "%s-xproc-%s.json" % (prop, "".join(ch if ch.isalnum() or ch in "-_.=" else "_" for ch in str(rs))))
             os.makedirs(os.path.dirname(path), exist_ok=True)
             prog = None
             if isinstance(rs, str) and rs.startswith("large:"):
